@@ -4,7 +4,7 @@
     Constant / Extract Inductive of our own. *)
 Require Extraction.
 Require Import ExtrOcamlBasic.
-From NX Require Import Frame Pad Records Request Info Stream Reasm Config Handshake DummyDev.
+From NX Require Import Frame Pad Records Request Info Stream Reasm Config Handshake DummyDev Deliver.
 Extraction "model.ml" Frame.frame_create Frame.frame_decode Frame.recv_dispatch
   Frame.hdr_decode Frame.crc16 Crc.crc_spec Pad.data_align
   Records.chan_new Records.dev_new Records.chan_setattr Records.dev_setattr Records.get
@@ -16,4 +16,5 @@ Extraction "model.ml" Frame.frame_create Frame.frame_decode Frame.recv_dispatch
   Reasm.recv_all Reasm.scan Reasm.read_frame
   Config.step Config.connected Config.run
   Handshake.connect Handshake.nx_step Handshake.nx0 Handshake.disconnect
-  DummyDev.dummy_handle.
+  DummyDev.dummy_handle
+  Deliver.deliver Deliver.subscribe Deliver.unsubscribe Deliver.qget.
